@@ -100,7 +100,8 @@ const CALL_CAP: u64 = 512;
 impl Read for SimReader<'_> {
     fn read(&mut self, buf: &mut [u8]) -> io::Result<usize> {
         self.calls += 1;
-        if self.calls > CALL_CAP {
+        // interruptions are scripted and finite; the cap bounds the calls that were answered
+        if self.calls > CALL_CAP + u64::from(self.eintr_total) {
             // bounded run: a decode that keeps calling is reported as a hang
             self.hang = true;
             return Err(io::Error::new(io::ErrorKind::Other, "step cap"));
@@ -269,9 +270,20 @@ impl Engine for ReaderEngine {
             .into_iter()
             .map(|frame| {
                 let nsteps = 48;
+                // "however many": a few decodes meet a storm of interruptions (a profiling timer,
+                // a debugger attached) — hundreds in one call, or tens before every call
+                let storm = if !fault_free && rng.chance(0.04) { 1 + rng.below(2) } else { 0 };
+                let storm_at = rng.usize_below(16);
+                let mut i_step = 0usize;
                 let steps = (0..nsteps)
                     .map(|_| {
-                        let eintr = if eintr_rate > 0.0 && rng.chance(eintr_rate) { 1 + rng.below(3) as u8 } else { 0 };
+                        let mut eintr = if eintr_rate > 0.0 && rng.chance(eintr_rate) { 1 + rng.below(3) as u8 } else { 0 };
+                        match storm {
+                            1 if i_step == storm_at || (i_step == storm_at + 1 && rng.coin()) => eintr = 120 + rng.below(136) as u8,
+                            2 => eintr = 8 + rng.below(40) as u8,
+                            _ => {}
+                        }
+                        i_step += 1;
                         let take = match frag_mode {
                             0 => 0,
                             1 => {
@@ -384,6 +396,9 @@ impl Engine for ReaderEngine {
             if rd.eintr_total > 0 {
                 *out.faults.entry("eintr").or_insert(0) += rd.eintr_total as u64;
             }
+            if rd.eintr_total >= 255 {
+                out.fault("eintr_storm_ge_255_in_one_decode");
+            }
             if rd.short_reads > 0 {
                 *out.faults.entry("short_read").or_insert(0) += rd.short_reads as u64;
             }
@@ -410,7 +425,7 @@ impl Engine for ReaderEngine {
                 out.probe("repeated_or_interleaved_decode");
             }
             if rd.hang {
-                out.violate("C19:hang", format!("decode of {} issued more than {CALL_CAP} reader calls", sc.frames[dec.frame]));
+                out.violate("C19:hang", format!("decode of {} issued more than {CALL_CAP} reader calls beyond the injected interruptions", sc.frames[dec.frame]));
             }
             if got_s != want {
                 let class = if got_s.starts_with("Panic") {
